@@ -47,6 +47,7 @@ OUTSIDE = [
     "rank specifications 'same' / fractions (np.round, np.sqrt, brentq in float arithmetic: compiled, not encoded)",
     "columns whose norm is exactly zero at a normalisation step (covered by C04's cp_normalize obligations)",
     "that the SVD kernel returns the true singular vectors (contract: arbitrary orthonormal frames)",
+    "multiplicative non-negative CP with normalisation on order-3 tensors after 2 sweeps: unit-norm obligation left `unknown` after 10 min (order 2, and order 3 at zero sweeps, are decided)",
 ]
 TRUSTED = ["z3", "havoc / Givens kernel stubs", "denominator clearing (vt/ratnorm.py) under non-zero denominators"]
 ASSUMPTIONS = ["real arithmetic", "column norms met by cp_normalize are non-zero (asserted as a precondition on the interned root atoms)"]
@@ -71,8 +72,8 @@ def configs(tier):
                 for crit in ("abs_rec_error", "rec_error"):
                     if crit == "rec_error" and (R == 2 or len(shp) == 3):
                         continue
-                    if q and alg == "nn_parafac" and norm and len(shp) == 3:
-                        continue  # ~4 min: thorough tier only
+                    if alg == "nn_parafac" and norm and len(shp) == 3:
+                        continue  # measured: 10 min and still `unknown` (merged clip terms under the column norms): outside the claim
                     add("cp_exits", alg=alg, shape=shp, R=R, norm=norm, crit=crit, K=2 if alg == "nn_parafac" else 3, init="user", mode="merge" if alg == "nn_parafac" else "fork")
         md = "merge" if alg == "nn_parafac" else "fork"
         add("cp_exits", alg=alg, shape=(2, 2, 2), R=1, norm=1, crit="abs_rec_error", K=0, init="svd", mode=md)
